@@ -47,6 +47,10 @@ var l3Modes = []l3Mode{
 	{Name: "skip-label,allow_no_verification=off", SkipLabel: true},
 	{Name: "skip-label,allow_no_verification=on", SkipLabel: true, AllowNoVerify: true},
 	{Name: "disable_verification", Digest: "wrong", Disable: true},
+	// both labels (what `ctr-remote rpull --skip-content-verify` produces for an eStargz layer):
+	// the mount was given D, so it must be verified against D whatever else is allowed
+	{Name: "right-digest+skip-label,allow_no_verification=on", Digest: "good", SkipLabel: true, AllowNoVerify: true},
+	{Name: "wrong-digest+skip-label,allow_no_verification=on", Digest: "wrong", SkipLabel: true, AllowNoVerify: true},
 }
 
 type l3FS struct {
